@@ -258,14 +258,30 @@ def _value_const_ints(val: Optional[ir.Value]) -> Optional[Tuple[int, ...]]:
     return tuple(int(x) for x in np_arr.reshape(-1).tolist())
 
 
+def _symbolic_dim_name(dim: Any) -> Optional[str]:
+    if isinstance(dim, ir.SymbolicDim):
+        value = dim.value
+        return value if isinstance(value, str) and value else None
+    if isinstance(dim, str):
+        return dim or None
+    return None
+
+
 def _shapes_compatible(a: Optional[ir.Value], b: Optional[ir.Value]) -> bool:
-    ta, tb = _shape_tuple(a), _shape_tuple(b)
-    if ta is None or tb is None or len(ta) != len(tb):
+    if a is None or b is None:
         return False
-    for da, db in zip(ta, tb):
-        if da == -1 or db == -1:
+    dims_a, dims_b = _shape_dims_seq(a.shape), _shape_dims_seq(b.shape)
+    if dims_a is None or dims_b is None or len(dims_a) != len(dims_b):
+        return False
+    for da, db in zip(dims_a, dims_b):
+        if isinstance(da, (int, np.integer)) and isinstance(db, (int, np.integer)):
+            if int(da) != int(db):
+                return False
             continue
-        if da != db:
+        # A symbolic or unknown extent only matches the very same symbol:
+        # two different symbols (or unknowns) may differ at run time.
+        name_a, name_b = _symbolic_dim_name(da), _symbolic_dim_name(db)
+        if name_a is None or name_b is None or name_a != name_b:
             return False
     return True
 
